@@ -11,6 +11,13 @@
 (*  v   what it saw: "result" (an element), "error" (a stanza error),       *)
 (*      "local" (a send/disconnect error)                                   *)
 (*  got the marker of the element / error it was completed with             *)
+(* A Send line carries c, the id the caller put into the IQ ("fresh",       *)
+(* "empty", "dup-j" = the id request j, still pending, went out with), and  *)
+(* wk / clash, what the stanza was really written with.  A Recv line for    *)
+(* request i is an element that carries the id request i's stanza was       *)
+(* written with (read by the driver from what the client wrote), from a     *)
+(* sender relative to i's addressee: if that is i's addressee, i -- and     *)
+(* nothing else -- has to complete.                                         *)
 (*                                                                          *)
 (* Three layers per line (docs/BUILDING-A-CHECK.md):                        *)
 (*  model    IqTracker's action for the step (or stutter);                  *)
@@ -41,7 +48,7 @@ Proj == [req |-> [i \in Ids |-> [n |-> req[i].n, v |-> req[i].by]], passed |-> o
 ObsProj(o) == [req |-> [i \in Ids |-> [n |-> o.req[i].n, v |-> o.req[i].v]], passed |-> o.passed, up |-> o.up]
 
 ModelAct(ev) ==
-    CASE ev.e = "Send"    -> Send(ev.id, ev.to)
+    CASE ev.e = "Send"    -> Send(ev.id, ev.to, ev.c)
       [] ev.e = "Recv"    -> Recv(ev.id, ev.ty, ev.from)
       [] ev.e = "Open"    -> Open(ev.k)
       [] ev.e = "Close"   -> Close(ev.k)
@@ -102,7 +109,8 @@ OpStep(ev) ==
        \/ (~ENABLED ModelAct(ev)) /\ UNCHANGED vars
     /\ mon' = MonNext(mon, ev)
     /\ viol' = viol \cup {[case |-> cid, line |-> l, prop |-> p, e |-> ev.e] : p \in Failed(mon, mon', ev)}
-    /\ LET d == Proj' # ObsProj(ev.o) IN
+    \* a Send whose stanza went out without an id or with the id of a pending request: the model never does
+    /\ LET d == (Proj' # ObsProj(ev.o)) \/ (ev.e = "Send" /\ ev.clash) IN
         /\ dflag' = (dflag \/ d)
         /\ ndiv' = IF d /\ ~dflag THEN ndiv + 1 ELSE ndiv
         /\ divs' = IF d /\ ~dflag /\ Len(divs) < 10
